@@ -14,12 +14,12 @@ def write_docs(d, files):
     os.makedirs(d, exist_ok=True)
     for name, text in files: open(os.path.join(d, name), "w", encoding="utf-8").write(text)
 
-def parse_dir(d, names, k=None, observe=None, namespaces=None):
+def parse_dir(d, names, k=None, observe=None, namespaces=None, base=False):
     """parse with a failure injected at the k-th operation; returns (outcome, trace, fired).
     observe: called at the moment the call has returned or raised - inside the handler, while the exception (and with it the frames of the failed
     call) is still alive, which is when a caller's own except clause looks at the directory"""
     from opcua_tools.nodeset_parser import parse_xml_files
-    tr = inject.Tracer(k)
+    tr = inject.Tracer(k, base)
     with inject.intercepted(tr):
         try:
             res = parse_xml_files([os.path.join(d, n) for n in names]) if namespaces is None else parse_xml_files([os.path.join(d, n) for n in names], list(namespaces))
@@ -65,14 +65,14 @@ def make_sets(ctx):
     sets.append(dict(files=[("a.xml", docs.simple_doc(rng, "urn:ok2")), ("b.xml", "<UANodeSet><broken")], bad="xml"))
     return sets
 
-def run_case(ctx, work, s, k, edit_target=0):
+def run_case(ctx, work, s, k, edit_target=0, base=False):
     """one fault point of one document set: implementation run, then edit -> parse again"""
     d = os.path.join(work, "case"); shutil.rmtree(d, ignore_errors=True)
     files = [(n, doc if isinstance(doc, str) else docs.render(doc, ctx.rng)) for n, doc in s["files"]]
     write_docs(d, files); names = [n for n, _ in files]
     before = snapshot(d)
     seen = []
-    out, trace, fired = parse_dir(d, names, k, observe=lambda: seen.append(snapshot(d)))
+    out, trace, fired = parse_dir(d, names, k, observe=lambda: seen.append(snapshot(d)), base=base)
     after = snapshot(d)
     if seen and seen[0] != before: after = seen[0]          # what the directory looked like when the call returned / raised
     # edit the first file to another namespace and parse again, without faults
@@ -152,7 +152,8 @@ def check(ctx):
             if r0["out"][:2] != plain[:2] and not (r0["out"][0] == "ok" and plain[0] == "ok"):
                 ctx.disagree("trace", dict(set=si, k=None), r0["out"][:2], plain[:2])
             for k in [None] + list(range(total + 1)):
-                r = r0 if k is None else run_case(ctx, work, s, k)
+                # every second fault of the first two sets is an interruption that is not an Exception (KeyboardInterrupt, SystemExit, a timeout of the test runner)
+                r = r0 if k is None else run_case(ctx, work, s, k, base=(si < 2 and k % 2 == 1))
                 # which file / which model index
                 if k is None or r["fired"] is None:
                     fileidx, mk = None, None
